@@ -341,7 +341,7 @@ func mask(w int) uint64 {
 }
 
 // Decls emits the generated declarations (after the base prelude).
-func (e *TypeEnv) Decls() string {
+func (e *TypeEnv) StructDecls() string {
 	var b strings.Builder
 	for _, n := range e.structOrd {
 		si := e.structs[n]
@@ -351,6 +351,11 @@ func (e *TypeEnv) Decls() string {
 		}
 		b.WriteString(")))\n")
 	}
+	return b.String()
+}
+
+func (e *TypeEnv) Decls() string {
+	var b strings.Builder
 	// string literals: distinct constants with known lengths
 	for _, s := range e.litOrd {
 		sym := e.lits[s]
